@@ -461,10 +461,11 @@ type SpecFile struct {
 	Funcs     []*FuncSpec
 	Globals   [][]string
 	Axioms    []Clause
+	UFs       []*SpecFuncDecl
 }
 
 var topKeywords = map[string]bool{"sort": true, "type": true, "alias": true, "world": true, "const": true, "specfunc": true,
-	"ghost": true, "lemma": true, "func": true, "global": true, "axiom": true}
+	"ghost": true, "lemma": true, "func": true, "global": true, "axiom": true, "uf": true}
 var subKeywords = map[string]bool{"ghostvar": true, "params": true, "pure": true, "def": true, "defsmt": true, "inline": true, "opaque": true, "trusted": true,
 	"fresh": true, "requires": true, "ensures": true, "modifies": true, "let": true, "loop": true, "use": true, "unfold": true,
 	"induction": true, "call": true, "allow": true, "unreachable": true, "reads": true, "nopanic": true, "maypanic": true, "out": true, "as": true}
@@ -599,6 +600,12 @@ func ParseSpecFile(path, src, pkgPath string) (*SpecFile, error) {
 				return nil, err
 			}
 			sf.Axioms = append(sf.Axioms, cl)
+		case "uf":
+			name, params, ret, err := parseSig(c.rest)
+			if err != nil {
+				return nil, errf(c, "%v", err)
+			}
+			sf.UFs = append(sf.UFs, &SpecFuncDecl{Name: name, Params: params, Ret: ret})
 		case "specfunc":
 			// specfunc name(params) Ret = smt "..."  |  = expr
 			eq := strings.Index(c.rest, "=")
